@@ -639,8 +639,13 @@ sfd_tran_ep_close(void *arg)
 	NNI_LIST_FOREACH (&ep->negopipes, p) {
 		sfd_tran_pipe_close(p);
 	}
-	NNI_LIST_FOREACH (&ep->waitpipes, p) {
-		sfd_tran_pipe_close(p);
+	while ((p = nni_list_first(&ep->waitpipes)) != NULL) {
+		// These finished negotiating but were never handed to the
+		// socket, so nobody else will close them or drop the
+		// reference we hold from creating them.
+		nni_list_remove(&ep->waitpipes, p);
+		nni_pipe_close(p->npipe);
+		nni_pipe_rele(p->npipe);
 	}
 	if (ep->useraio != NULL) {
 		nni_aio_finish_error(ep->useraio, NNG_ECLOSED);
